@@ -277,6 +277,7 @@ def rule_r4(facts, rep, rid="C18-R4"):
             rep.ok(rid, sp.def_ + "|rank-desc-then-key", "b.node_rank.cmp(&a.node_rank) then a.key.cmp(&b.key)", loc(sp, srt[0]))
         else:
             rep.violation(rid, sp.def_ + "|rank-desc-then-key", "search_paths ordering changed (rank descending: %s, key ascending: %s)" % (ok1, ok2), loc(sp, srt[0]))
+    rule_search_ties(facts, rep, rid)
     # node_rank applies to primary sections and sums both reference kinds (C05-R4 checks the sources)
     nr = facts.fn("liwe::model::rank::node_rank")
     if q.has_call(ctx(nr).mentions(nr.body), "NodePointer::is_primary_section"):
@@ -335,7 +336,7 @@ def run(facts, rep, tier):
              "graph_to_paths filters list items and non-root starts and sorts+dedups totally.")
     rep.rule("C18-R3", "= C04-R1: the root filter and the Document arm read the tombstone-filtered index.")
     rep.rule("C18-R4", "Search contract: global_search sorts then truncates to the literal 100; the comparator branches on query.is_empty(): "
-             "empty -> node_rank descending first, otherwise fuzzy score descending first; search_paths orders by rank descending then key.")
+             "empty -> node_rank descending first, otherwise fuzzy score descending first; search_paths orders by rank descending, then key, then the rendered path text (ties are never left to node ids, which follow the edit history).")
     rep.rule("C18-R5", "Symbol names map path.ids() in order through get_text (no rev/skip/filter in the chain).")
     rule_r1(facts, rep)
     rule_r2(facts, rep)
@@ -378,3 +379,28 @@ def run(facts, rep, tier):
     rep.rule("C18-R10", "= C16-R8: graph_to_paths removes duplicate paths with sorted().dedup(), which needs NodePath's order to be total and to agree with == (derived, or visibly lexicographic).")
     from . import c16 as _c16
     _c16.rule_r8(facts, rep, "C18-R10")
+
+
+def rule_search_ties(facts, rep, rid):
+    """Paths that tie on (rank, key) - one note reached through two parents - must be ordered by something the listing shows.  The sort is stable, so a comparator that stops at the key
+    leaves them in the order graph_to_paths produced them: by node id, and node ids follow the edit history (Graph::update_key re-inserts a note with new, larger ids).  A server that
+    has seen an edit then lists `t|B T ; t|A T` where a fresh one lists `t|A T ; t|B T` (found on the pinned tree through a sub-agent's remark, repaired)."""
+    sp = facts.fn("Graph::search_paths")
+    rep.saw_fn(sp)
+    cs = ctx(sp)
+    key = sp.def_ + "|ties-broken-by-content"
+    srt = [x for x in fb.walk(sp.body) if x.get("k") == "mcall" and x["name"] in ("sorted_by", "sort_by", "sorted_by_key", "sort_by_key", "sorted_by_cached_key", "sort_by_cached_key", "sort_unstable_by", "sort_unstable_by_key")]
+    if not srt:
+        rep.violation(rid, key, "search_paths no longer sorts", sp.loc)
+        return
+    body = srt[0]["args"][0].get("body") if srt[0]["args"] and srt[0]["args"][0].get("k") == "closure" else srt[0]["args"][0] if srt[0]["args"] else None
+    m = cs.mentions(body) if body is not None else set()
+    fields = set(a[1] for a in m if a[0] == "field")
+    if "search_text" in fields and "key" in fields:
+        rep.ok(rid, key, "comparator reads %s" % sorted(fields & {"node_rank", "key", "search_text", "line", "root"}), loc(sp, srt[0]))
+    elif fields & {"path"} or any(a[0] == "call" and a[1] and fb.last_seg(a[1]) in ("ids", "last_id", "target", "first_id") for a in m):
+        rep.violation(rid, key, "ties are broken by node ids, which follow the edit history, not the library's content", loc(sp, srt[0]))
+    else:
+        rep.violation(rid, key, "the comparator stops at %s: paths to one note through different parents tie and keep the order of their node ids, which follows the edit history (an edited "
+                      "library lists them in another order than a freshly loaded one)" % sorted(fields & {"node_rank", "key", "line", "root"}), loc(sp, srt[0]))
+
